@@ -194,5 +194,13 @@ func init() {
 		ruleD2(c, 0)
 		ruleD5(c, 0)
 		ruleD6(c, 0)
+		ruleX1(c, 0)
+		ruleT1(c)
+		ruleX2(c)
+		ruleX3(c)
+		ruleX4(c)
+		ruleH(c)
+		ruleX5(c)
+		ruleX6(c, "Queue", "Deque")
 	}
 }
